@@ -921,6 +921,7 @@ static int vi_change(int r1, int o1, int r2, int o2, int lnmode)
 	int row, off;
 	char *rep;
 	char *pref, *post;
+	int oleft = xleft;
 	region = lbuf_region(xb, r1, lnmode ? 0 : o1, r2, lnmode ? -1 : o2);
 	reg_put(vi_ybuf, region, lnmode);
 	free(region);
@@ -940,7 +941,7 @@ static int vi_change(int r1, int o1, int r2, int o2, int lnmode)
 	if (rep == NULL)
 		return 0;
 	vi_drawfix(r1, r1 + row - 1, row, 0);
-	return VC_OK;
+	return xleft != oleft ? VC_WIN : VC_OK;	/* drawn with another offset */
 }
 
 static int vi_case(int r1, int o1, int r2, int o2, int lnmode, int cmd)
@@ -1085,6 +1086,7 @@ static int vc_insert(int cmd)
 	char *pref, *post;
 	char *ln = lbuf_get(xb, xrow);
 	int row, ohll, off = 0;
+	int oleft = xleft;
 	char *rep;
 	if (cmd == 'I')
 		xoff = lbuf_indents(xb, xrow);
@@ -1118,7 +1120,7 @@ static int vc_insert(int cmd)
 		return 0;
 	ohll = cmd == 'O' && xhll;
 	vi_drawfix(xrow - row + 1, xrow + ohll, row + ohll, 0);
-	return VC_OK;
+	return xleft != oleft ? VC_WIN : VC_OK;	/* drawn with another offset */
 }
 
 static int vc_put(int cmd)
